@@ -105,6 +105,13 @@ func vDecodeKey(store string, k []byte) (vKeyID, error) {
 		}
 		return s, true
 	}
+	// A first byte outside the documented set of a store is a record kind this
+	// monitor does not know (a later version of the module may add one): such a
+	// write cannot be attributed to anybody and is counted, not judged.
+	known := map[string]string{dtypes.StoreKey: "\x01\x02", mtypes.StoreKey: "\x01\x02\x03", etypes.StoreKey: "\x01\x02", atypes.StoreKey: "\x01", ctypes.StoreKey: "\x01"}
+	if set, ok := known[store]; ok && len(k) > 0 && !strings.ContainsRune(set, rune(k[0])) {
+		return vKeyID{Kind: "unknown-kind"}, nil
+	}
 	switch store {
 	case dtypes.StoreKey:
 		if len(k) < 1 {
@@ -360,6 +367,10 @@ func (m *vMonC06) AfterTx(h *vHist, o *vTxObs) {
 			h.Violation("written-key-decodes", kind, err.Error())
 			continue
 		}
+		if id.Kind == "unknown-kind" {
+			m.res.Count("writes_to_record_kinds_unknown_to_the_monitor", 1)
+			continue
+		}
 		if !sc.admits(id) {
 			h.Violation("touches-only-what-it-names", kind+"/"+id.Kind,
 				fmt.Sprintf("%s naming %+v changed %s record %+v (key %x)", kind, sc, ch.Store, id, ch.Key))
@@ -508,6 +519,11 @@ func TestVerif_C06(t *testing.T) {
 			g.WrongSigner = [2]int{1, 6}
 			g.AtEnd = vWrongSignerSweep
 			g.ForceTemplate = "collision-dseqs"
+		},
+		Extra: func(res *vs.Result) {
+			if n := res.Counter("writes_to_record_kinds_unknown_to_the_monitor"); n > 0 {
+				res.Inconclusive(fmt.Sprintf("%d writes went to record kinds this monitor does not know (new key prefix in a module store): their locality was not judged", n))
+			}
 		},
 	}, func() []vMonitor {
 		return []vMonitor{&vMonC06{res: res}}
